@@ -35,23 +35,6 @@ Proof. intros s H b Hb. rewrite forallb_forall in H. specialize (H b Hb). unfold
 Lemma byte_bytes : forall s, forallb byte_ok s = true -> forall b, In b s -> 0 <= b < 256.
 Proof. intros s H b Hb. rewrite forallb_forall in H. specialize (H b Hb). unfold byte_ok in H. lia. Qed.
 
-Section Cell.
-Variable E : env.
-Variable usub : nat -> list Z -> res msg.
-
-(* what is known about sub-messages (induction hypothesis of the message-level theorem) *)
-Definition sub_rt (m : msg) : Prop :=
-  forall b, pack_msg E m = Ok b -> zlen b <= 2147483647 ->
-  usub (m_desc m) b = Ok m /\ (forall x, In x b -> 0 <= x < 256).
-
-Definition cell_rt (f : field) (v : sval) : Prop :=
-  forall bytes, pk_required (pack_msg E) f v = Ok bytes -> zlen bytes <= 2147483647 ->
-  exists payload pref,
-    bytes = e_tag (f_id f) (wire_type_of (f_type f)) ++ payload /\
-    payload_ok (wire_type_of (f_type f)) payload pref /\
-    forall i old mc, (mc = true -> f_type f = TMessage -> as_msg old = Ok None) ->
-      parse_required E usub f (new_member (f_id f) (wire_type_of (f_type f)) (Some i) payload pref) old mc = Ok v.
-
 Lemma lenrec_ok : forall body, zlen body <= 2147483647 -> (forall b, In b body -> 0 <= b < 256) ->
   payload_ok WT_LEN (e_uint32 (u32 (zlen body)) ++ body) (zlen (e_uint32 (u32 (zlen body)))).
 Proof.
@@ -61,6 +44,26 @@ Proof.
   - intros b Hb. apply in_app_or in Hb. destruct Hb; auto.
   - right. right. right. split; [reflexivity|]. exists (e_uint32 (u32 (zlen body))), body. auto 10.
 Qed.
+
+Section Cell.
+Variable E : env.
+Variable usub : nat -> list Z -> res msg.
+Variable lim : Z.                       (* size limit for this nesting level *)
+Hypothesis Hlim : lim <= 2147483647.
+
+(* what is known about sub-messages (induction hypothesis of the message-level theorem) *)
+Definition sub_rt (m : msg) : Prop :=
+  canon_msg E m = true ->
+  forall b, pack_msg E m = Ok b -> zlen b < lim ->
+  usub (m_desc m) b = Ok m /\ (forall x, In x b -> 0 <= x < 256).
+
+Definition cell_rt (f : field) (v : sval) : Prop :=
+  forall bytes, pk_required (pack_msg E) f v = Ok bytes -> zlen bytes <= lim ->
+  exists payload pref,
+    bytes = e_tag (f_id f) (wire_type_of (f_type f)) ++ payload /\
+    payload_ok (wire_type_of (f_type f)) payload pref /\
+    forall i old mc, (mc = true -> f_type f = TMessage -> as_msg old = Ok None) ->
+      parse_required E usub f (new_member (f_id f) (wire_type_of (f_type f)) (Some i) payload pref) old mc = Ok v.
 
 Lemma cell_rt_holds : forall f v,
   canon_cell (canon_msg E) f v = true ->
@@ -127,10 +130,13 @@ Proof.
       apply andb_true_iff in C. destruct C as [Cm Cd]. apply Nat.eqb_eq in Cd.
       unfold pk_required in Hp. rewrite Et in Hp.
       destruct (pack_msg E m) as [b|e] eqn:Eb; cbn [bind] in Hp; [|discriminate Hp]. inversion Hp; subst bytes.
-      assert (Hs : zlen b <= 2147483647).
+      assert (Hs : zlen b <= 2147483647 /\ zlen b < lim).
       { rewrite !zlen_app in Hlen. pose proof (zlen_nonneg _ (e_tag (f_id f) WT_LEN)).
-        pose proof (zlen_nonneg _ (e_uint32 (u32 (zlen b)))). lia. }
-      destruct (IH m eq_refl b Eb Hs) as [Hu HB].
+        assert (1 <= zlen (e_uint32 (u32 (zlen b)))).
+        { rewrite e_uint32_spec by apply u32_range. pose proof (varint_len_bounds (u32 (zlen b))). lia. }
+        lia. }
+      destruct Hs as [Hs Hs2].
+      destruct (IH m eq_refl Cm b Eb Hs2) as [Hu HB].
       exists (e_uint32 (u32 (zlen b)) ++ b), (zlen (e_uint32 (u32 (zlen b)))).
       split; [reflexivity|]. split; [apply lenrec_ok; assumption|].
       intros i old mc Hold. unfold parse_required, new_member. rewrite Et. cbn [sm_wt sm_len sm_data sm_pref wire_type_of].
